@@ -1,4 +1,5 @@
 import XmppVerif.Gen.Consts
+import XmppVerif.Gen.BackoffUse
 import XmppVerif.Model.C19
 /- Tie (regenerated facts): the package defaults in backoff.go are the ones the model assumes. -/
 namespace XmppVerif.Tie.C19
@@ -6,5 +7,17 @@ theorem tie_defaults :
     XmppVerif.Gen.Consts.defaultBase = XmppVerif.Model.C19.defaultBase ∧
     XmppVerif.Gen.Consts.defaultFactor = XmppVerif.Model.C19.defaultFactor ∧
     XmppVerif.Gen.Consts.defaultCap = XmppVerif.Model.C19.defaultCap := by decide
+
+/-- The retry loop of `StreamManager.resume` uses ONE back-off state per connection loss: the local `backoff` is
+declared before the `for` loop (not inside it, where every iteration would start again at attempt 0), it is a
+zero value (declared by `var`, so the package defaults and jitter apply), the only thing the loop does with it is
+`wait()` in the error branch, `wait` sleeps for `duration()`, and `duration` asks for the current attempt and
+then increments it. This is what `Model.C19.supervisorBounds` transcribes. -/
+theorem tie_supervisor_backoff :
+    XmppVerif.Gen.BackoffUse.resumeBackoffDecl = ["backoff:backoff"] ∧
+    XmppVerif.Gen.BackoffUse.resumeBackoffCalls = ["for:if:backoff.wait"] ∧
+    XmppVerif.Gen.BackoffUse.waitBody = ["time.Sleep", "b.duration"] ∧
+    XmppVerif.Gen.BackoffUse.durationBody = ["b.durationForAttempt", "b.attempt++", "return"] := by decide
 end XmppVerif.Tie.C19
 #print axioms XmppVerif.Tie.C19.tie_defaults
+#print axioms XmppVerif.Tie.C19.tie_supervisor_backoff
